@@ -68,6 +68,12 @@ class SpecCtx:
     def unspecified(self):
         raise SpecUnspecified()
 
+    def may_reject_here(self, cls=AssertionError):
+        """on THIS path of the spec the code may reject (raise `cls`) instead of returning the value the spec
+        goes on to return: 'rejected, or exactly this value' (e.g. a compile-time fold that may refuse a result the
+        hardware would wrap -- but if it yields a number, it is the hardware's number)"""
+        self.path_may_reject = cls
+
     def domain(self, cond):
         """restrict the contract's domain"""
         if not self.branch(cond):
